@@ -607,7 +607,7 @@ def gen_exact_spec(rng):
             'cached': gen_cached(rng), 'womt': rng.random() < 0.75}
 
 
-def gen_pyramid_spec(rng, irregular=False):
+def gen_pyramid_spec(rng, irregular=False, multi=False):
     """regular pyramid, several levels below the first level that has whole meta tiles inside a large polygon cut by a
     sloping edge: CONTAINED subtiles next to INTERSECTING ones with NONE tiles below them"""
     t = rng.choice([4, 8, 4, 5])
@@ -635,6 +635,11 @@ def gen_pyramid_spec(rng, irregular=False):
         [[x0 - 9, y0 - 9], [xa, y0 - 9], [xb, y0 + h + 9], [x0 - 9, y0 + h + 9]],
         [[xa, y0 - 9], [x0 + w + 9, y0 - 9], [x0 + w + 9, y0 + h + 9], [xb, y0 + h + 9]]])
     cov = {'type': 'poly', 'shell': shell, 'holes': [], 'srs': 3857}
+    if multi:
+        # a multi coverage with two members in the (projected) grid SRS: its combined extent is kept in degrees
+        bx, by = x0 + rng.uniform(0.1, 0.6) * w, y0 + rng.uniform(0.1, 0.6) * h
+        cov = {'type': 'multi', 'parts': [cov, {'type': 'bbox', 'srs': 3857,
+                                                'bbox': [math.floor(bx), math.floor(by), math.floor(bx + 0.3 * w), math.floor(by + 0.3 * h)]}]}
     levels = rng.choice([list(range(n)), list(range(1, n)), [n - 1], [0, n - 1]])
     return {'stream': 'exact', 'grid': gs, 'meta': list(rng.choice([(1, 1), (1, 1), (2, 2), (2, 1)])),
             'levels': levels, 'cov': cov, 'skip': 0, 'real_tm': rng.random() < 0.5, 'refresh_all': rng.random() < 0.5,
@@ -777,6 +782,36 @@ def bbox_cov_exact(cov_spec, rect):
     return res
 
 
+def indep_cov(cov, grid_srs, rect):
+    """SeedTask.intersects (-1 CONTAINS / 1 INTERSECTS / 0 NONE) recomputed WITHOUT the intersects()/contains() methods of
+    mapproxy.util.coverage: directly from the member rectangles / shapely geometries.  Only for coverages whose members
+    are all in the grid SRS (returns None otherwise: reprojection is not repeated here).  rect: 4 floats."""
+    import shapely.geometry
+    name = type(cov).__name__
+    if name == 'MultiCoverage':
+        rs = [indep_cov(c, grid_srs, rect) for c in cov.coverages]
+        if any(r is None for r in rs):
+            return None
+        if any(r == -1 for r in rs):
+            return -1
+        return 1 if any(r == 1 for r in rs) else 0
+    if getattr(cov, 'srs', None) != grid_srs:
+        return None
+    if name == 'BBOXCoverage':
+        c = [frac(v) for v in cov.bbox]
+        r = [frac(v) for v in rect]
+        xd, yd = abs(c[2] - c[0]) / 10 ** 13, abs(c[3] - c[1]) / 10 ** 13
+        if c[0] <= r[0] + xd and c[2] >= r[2] - xd and c[1] <= r[1] + yd and c[3] >= r[3] - yd:
+            return -1
+        return 1 if (c[0] < r[2] and c[2] > r[0] and c[1] < r[3] and c[3] > r[1]) else 0
+    if name == 'GeomCoverage':
+        box = shapely.geometry.box(*rect)
+        if cov.geom.contains(box):
+            return -1
+        return 1 if cov.geom.intersects(box) else 0
+    return None
+
+
 def all_bbox_same_srs(c, srs_code):
     if c['type'] == 'bbox':
         return c['srs'] == srs_code
@@ -826,6 +861,7 @@ class TaskCheck(object):
         ctx.case(('U', json.dumps(spec, sort_keys=True)), nontrivial,
                  {'task': spec, 'events': len(U.events), 'processed': nproc, 'first_events': [list(e[:3]) for e in U.events[:4]]})
         self.oracle_store(U, 'uninterrupted')
+        self.oracle_cov_answers(table)
         runs = [('U', U, None)]
         if U.raised:
             ctx.count('walk_raised')
@@ -842,6 +878,23 @@ class TaskCheck(object):
     def oracle_store(self, run, what):
         for p in run.store_problems[:1]:
             self.ctx.fail('store-wrong-identifier', '%s (%s run)' % (p, what), {'task': self.spec})
+
+    def oracle_cov_answers(self, table):
+        """every answer SeedTask.intersects gave during the walk vs the independent classification of the rectangle"""
+        n = 0
+        for bbox, ans in sorted(table.items()):
+            want = indep_cov(self.task.coverage, self.grid.srs, tuple(float(v) for v in bbox))
+            if want is None:
+                return
+            n += 1
+            if want != ans:
+                names = {0: 'NONE', 1: 'INTERSECTS', -1: 'CONTAINS'}
+                self.ctx.fail('coverage-predicate-wrong',
+                              'the walker classified the meta tile rectangle %r as %s for the task coverage; from the member rectangles / '
+                              'geometries of the coverage it is %s' % (list(bbox), names.get(ans, ans), names[want]),
+                              {'task': self.spec, 'rectangle': list(bbox), 'answer': ans, 'expected': want})
+                return
+        self.ctx.count('coverage_answers_rechecked', n)
 
     def oracle_selection(self, U, geo, exact):
         ctx, spec, task, gc = self.ctx, self.spec, self.task, self.gc
@@ -870,7 +923,9 @@ class TaskCheck(object):
 
         def cov_of(t):
             if t not in covcache:
-                covcache[t] = orig(tuple(float(v) for v in geo.meta_rect(t)))
+                rect = tuple(float(v) for v in geo.meta_rect(t))
+                r = indep_cov(task.coverage, self.grid.srs, rect)       # independent of coverage.intersects/contains
+                covcache[t] = orig(rect) if r is None else r
             return covcache[t]
         bbox_exact = exact and all_bbox_same_srs(spec['cov'], 3857)
         same_srs = self.same_srs()
@@ -1375,8 +1430,19 @@ caches:
     sources: [upstream]
     grids: %(grid)s
     meta_size: [%(msx)d, %(msy)d]
+    meta_buffer: %(mbuf)d
+%(rescale)s
+  c2:
+    sources: [upstream]
+    grids: %(grid)s
+    meta_size: [%(msx)d, %(msy)d]
     meta_buffer: 0
 %(rescale)s
+  c3:
+    sources: [upstream]
+    grids: %(grid)s
+    meta_size: [1, 1]
+    meta_buffer: 0
 sources:
   upstream:
     type: wms
@@ -1462,7 +1528,7 @@ class ConfRun(object):
 
             def process(self, tiles, progress):
                 run.tick()
-                run.events.append(('proc', tuple(tuple(t) for t in tiles)))
+                run.events.append(('proc', tuple(tuple(t) for t in tiles), run.task_index(self.task)))
                 run.by_task.setdefault(id(self.task), []).append(tuple(tuple(t) for t in tiles))
                 if self.progress_logger:
                     self.progress_logger.log_step(progress)
@@ -1489,11 +1555,18 @@ class ConfRun(object):
             su.time, sd.TileWorkerPool = saved_time, saved_pool
         return self
 
+    def task_index(self, task):
+        for i, t in enumerate(self.tasks):
+            if t is task:
+                return i
+        return -1
+
     def processed(self):
+        """(task index, tile) for every tile handed over: the same coordinate in two caches are two pieces of work"""
         out = []
         for e in self.events:
             if e[0] == 'proc':
-                out.extend(e[1])
+                out.extend((e[2], t) for t in e[1])
         return out
 
 
@@ -1526,18 +1599,22 @@ def conf_stream(ctx):
             x, y = rng.uniform(-170, 60), rng.uniform(-75, 20)
             bbox, srs = [x, y, x + rng.uniform(20, 110), y + rng.uniform(15, 55)], 'EPSG:4326'
         two = rng.random() < 0.4
-        seeds = '  s1:\n    caches: [c]\n    coverages: [cov]\n    levels: %r\n' % (levels,)
+        # several caches in one seed: one task per cache (and grid, and level for rescaling caches), each with its own
+        # progress entry
+        caches = rng.choice(['[c, c2]', '[c, c2, c3]', '[c]']) if (i % 3 == 1 or rng.random() < 0.4) else '[c]'
+        seeds = '  s1:\n    caches: %s\n    coverages: [cov]\n    levels: %r\n' % (caches, levels)
         if two:
             seeds += '  s2:\n    caches: [c]\n    coverages: [cov]\n    levels: %r\n' % (levels[:2],)
         if not multi:
             gridname = '[%s]' % gridname
         conf_desc = {'grid': gridname, 'rescale': rescale.strip(), 'levels': levels, 'coverage': bbox, 'coverage_srs': srs,
-                     'seeds': 2 if two else 1}
+                     'seeds': 2 if two else 1, 'caches': caches}
         base = ctx.tmpdir('c11conf')
         mp, sdf = os.path.join(base, 'mapproxy.yaml'), os.path.join(base, 'seed.yaml')
         msx, msy = rng.choice([(2, 2), (1, 1), (3, 2)])
         with open(mp, 'w') as f:
-            f.write(CONF_MAPPROXY % {'grid': gridname, 'msx': msx, 'msy': msy, 'rescale': rescale, 'base': base})
+            f.write(CONF_MAPPROXY % {'grid': gridname, 'msx': msx, 'msy': msy, 'rescale': rescale, 'base': base,
+                                     'mbuf': rng.choice([0, 0, 10, 80])})
         with open(sdf, 'w') as f:
             f.write(CONF_SEED % {'seeds': seeds, 'bbox': bbox, 'srs': srs})
         try:
@@ -1600,7 +1677,7 @@ def conf_footprint_oracle(ctx, tasks, ref, desc):
 
 
 def conf_check(ctx, tasks, desc, base, rng):
-    desc = dict(desc, tasks=[[t.md['name'], list(t.levels)] for t in tasks])
+    desc = dict(desc, tasks=[[t.md['name'], t.md['cache_name'], t.md['grid_name'], list(t.levels)] for t in tasks])
     ctx.count('conf_tasks_per_run=%d' % len(tasks))
     ctx.count('conf_rescale=%s' % (desc['rescale'] or 'none'))
     ids = [t.id for t in tasks]
@@ -1765,7 +1842,7 @@ def run(ctx):
     for _ in range(ctx.n(22, 160)):
         specs.append(gen_exact_spec(rng))
     for j in range(ctx.n(6, 30)):
-        specs.append(gen_pyramid_spec(rng, irregular=(j % 2 == 1)))
+        specs.append(gen_pyramid_spec(rng, irregular=(j % 2 == 1), multi=(j % 3 == 0)))
     for _ in range(ctx.n(2, 10)):
         specs.append(gen_bend_spec(rng))
     for _ in range(ctx.n(7, 40)):
